@@ -83,6 +83,19 @@ DESC = {
  "C13-3": ("'fast path' in the Array arm of create_subtype: recurse only when the element type is an Object or OneOf", "objects under array-of-array or array-of-tuple: referenced struct never defined (E0425)"),
  "C14-4": ("Array arm of shape_representation takes the optional flag from the element type", "array below the root whose flag differs from its element's flag"),
  "C15-3": ("keyword-safe field names with an over-inclusive keyword table (weak keywords raw/safe/union get a `_` suffix, no serde rename)", "member named `raw`, `safe`, `union` or `macro_rules`: module compiles, source no longer deserializes"),
+ # ---- round 3 (fresh sub-agents asked for changes that only manifest at unusual SCALE or on RARE input features)
+ "C08-6": ("Object+Object merge: objects with >8 members, equal member count and equal first / last name are zipped by position", "two records of >= 9 members that differ in one MIDDLE member name"),
+ "C17-5": ("text path array-of-objects fold counts occurrences in saturating u8 counters", "array of >= 257 objects where a member of the first occurs in >= 255 of the others but not in all"),
+ "C06-4": ("value path: heterogeneous arrays longer than MAX_TUPLE_ARITY = 12 become Array<OneOf>", "mixed array of 13 or more elements"),
+ "C02-6": ("is_subset Array vs Array peels nested array layers in a loop that ignores the inner optional flags", "inner array layer nullable on the left but not on the right (nesting >= 2)"),
+ "C08-7": ("as_optional leaves a OneOf that already lists Null unflagged", "member that is a union with a Null variant and is absent in a later source"),
+ "C04-8": ("from_sources caches parsed sources keyed by `source.trim()` (Unicode white space, a superset of JSON's)", ">= 2 sources: a non-JSON text that is a copy of an earlier valid source padded with VT / FF / NEL / NBSP / U+2028 ..."),
+ "C05-7": ("has_errors caps the reported fragment at 4096 bytes (byte offset), span left alone", "error range longer than 4096 bytes: fragment != input[range]; a multi-byte character at the cut panics"),
+ "C07-6": ("member names decoded by a hand-written unescape that handles each \\uXXXX on its own", "member name containing a code point >= U+10000 spelled as a surrogate-pair escape"),
+ "C13-4": ("create_subtype gets a nesting budget MAX_SUBTYPE_DEPTH = 64 and returns silently beyond it", "object / OneOf sub-shape at nesting level 65 or deeper: referenced struct undefined"),
+ "C15-4": ("sources read through one shared 64 KiB buffer with a single File::read", "source file longer than 65 536 bytes whose tail carries shape information"),
+ "C14-5": ("wide-tuple fallback `Vec<serde_json::Value>` guarded by `len < 12` instead of `<= 12`", "tuple of exactly 12 elements below the root"),
+ "C16-6": ("OUT_DIR read with env::var; the error arm falls back to the current directory", "OUT_DIR whose bytes are not valid UTF-8"),
 }
 
 def main():
